@@ -125,6 +125,8 @@ def handlePar (toks : List String) : String :=
              else s!"specfail bundle-id-differs {idOf d} vs {idOf d2}")
           else s!"specfail blocks-differ-after-reserialising re2={clip re2}"
       else if reser2 != "same" && !hasMultiMap d then "specfail reserialisation-not-stable"
+      else if d.blocks.getLast?.map isPayload != some true then
+        "specfail reparsed-bundle-payload-block-not-last"
       else
       -- correspondence
       let pick := match m0, m1 with
